@@ -95,10 +95,10 @@ func (t *memTransport) RoundTrip(req *http.Request) (*http.Response, error) {
 		for {
 			n, err := body.Read(buf)
 			if n > 0 {
-				if c.isClosed() {
-					return // write on a closed connection fails; the loop ends
+				// the chunk reaches the wire, or the write fails on a closed connection and the loop ends
+				if mc.Select(false, mc.SendCase(c.reqCh, append([]byte(nil), buf[:n]...)), mc.RecvCase(c.connClosed)) != 0 {
+					return
 				}
-				mc.Send(c.reqCh, append([]byte(nil), buf[:n]...))
 			}
 			if err != nil {
 				if err == io.EOF {
@@ -131,7 +131,7 @@ func (t *memTransport) RoundTrip(req *http.Request) (*http.Response, error) {
 		if mc.Select(false, mc.RecvCase(mc.Wrap(ctx.Done())), mc.RecvCase(c.finished)) == 0 {
 			c.closeConn()
 		}
-	})
+	}).Free = true
 	switch mc.Select(false, mc.RecvCase(c.hdrCh), mc.RecvCase(mc.Wrap(ctx.Done()))) {
 	case 0:
 	default:
@@ -151,7 +151,6 @@ func (t *memTransport) RoundTrip(req *http.Request) (*http.Response, error) {
 // ---- server side
 
 type memReqBody struct {
-	mu        mc.Mutex
 	c         *memConn
 	left      []byte
 	sawEOF    bool
@@ -174,12 +173,10 @@ func (b *memReqBody) hitEOF() {
 		if mc.Select(false, mc.RecvCase(c.connClosed), mc.RecvCase(c.srvDone)) == 0 {
 			cancel()
 		}
-	})
+	}).Free = true
 }
 
 func (b *memReqBody) Read(p []byte) (int, error) {
-	b.mu.Lock()
-	defer b.mu.Unlock()
 	if b.closed {
 		return 0, http.ErrBodyReadAfterClose
 	}
@@ -208,17 +205,13 @@ func (b *memReqBody) Read(p []byte) (int, error) {
 }
 
 func (b *memReqBody) Close() error {
-	b.mu.Lock()
-	defer b.mu.Unlock()
 	b.closed = true
 	return nil
 }
 
-func (b *memReqBody) state() (sawEOF, closed bool) {
-	b.mu.Lock()
-	defer b.mu.Unlock()
-	return b.sawEOF, b.closed
-}
+// (the request body is used by the server task only: httpgrpc serialises RecvMsg,
+// and scenarios with a concurrently sending handler goroutine are in-process only)
+func (b *memReqBody) state() (sawEOF, closed bool) { return b.sawEOF, b.closed }
 
 type memRespWriter struct {
 	c   *memConn
@@ -249,7 +242,7 @@ func (w *memRespWriter) Write(b []byte) (int, error) {
 	if !w.wroteHeader {
 		w.WriteHeader(http.StatusOK)
 	}
-	if w.c.isClosed() {
+	if w.broken {
 		return 0, fmt.Errorf("write: connection closed")
 	}
 	w.pending = append(w.pending, b...)
@@ -304,9 +297,7 @@ func (w *memRespWriter) commit() {
 func (w *memRespWriter) Flush() {
 	w.commit()
 	if len(w.pending) > 0 {
-		if !w.broken && !w.c.isClosed() {
-			mc.Send(w.c.respCh, w.pending)
-		} else {
+		if w.broken || mc.Select(false, mc.SendCase(w.c.respCh, w.pending), mc.RecvCase(w.c.connClosed)) != 0 {
 			w.broken = true
 		}
 		w.pending = nil
